@@ -306,12 +306,18 @@ class Evaluator:
         self.model = model
         self.assigns = X.assign_map(model)
         self.env = {}
+        def safe_leaf(v):
+            try:
+                return leaf(v)
+            except RefError as ex:  # an input outside the range the reference handles
+                return ex
+
         for k, v in point["states"].items():
-            self.env[k] = leaf(v)
+            self.env[k] = safe_leaf(v)
         for k, v in point["params"].items():
-            self.env[k] = leaf(v)
+            self.env[k] = safe_leaf(v)
         for k, v in (missing or {}).items():
-            self.env[k] = leaf(v)
+            self.env[k] = safe_leaf(v)
         self.t = leaf(point["t"])
         self.cache: dict[str, object] = {}
         self.branches: list = []  # branch signature (conditions decided)
@@ -319,7 +325,10 @@ class Evaluator:
     def value(self, name: str) -> RE:
         """value of a state / parameter / assignment name; raises RefError"""
         if name in self.env:
-            return self.env[name]
+            r = self.env[name]
+            if isinstance(r, RefError):
+                raise r
+            return r
         if name in self.cache:
             r = self.cache[name]
             if isinstance(r, RefError):
